@@ -47,6 +47,17 @@ def finding_key(req, obs, detail):
         if (key.startswith("st ") and re.search(r"\(attr [12] \(n [^)]*\) \([^\n]*\(bin Sequence ", key)) or \
                 (key.startswith("src ") and re.search(r"\[ \[? ?\w+ \( \( \w+ , \w+ \) \) \]", key)):
             return "st tree-differs[list-length] attribute argument (bin Sequence (id a) (id b))"
+        # source stream, three more printer defects found with the broadened module generator (one key each, whatever else the
+        # 1-minimal program keeps around the construct)
+        if key.startswith("src "):
+            if re.search(r"template < [^>]* > \[ ", key) and "rejected-by-parser" in key:
+                return "src rejected-by-parser template < a > [ a ] a a ( ) { }"
+            if re.search(r"struct \w+ : \w+(?: , \w+)* \{", key) and "tree-differs" in key:
+                return "src tree-differs[module] struct a { } ; struct a : a { } ;"
+            if re.search(r"enum \w+ \{[^}]*= \( \S+ , ", key):
+                return "src rejected-by-parser enum a { a = ( a , a ) } ;"
+            if re.search(r"\w+ \w+ (?:\[ \S+ \] )?(?:: \w+ )?= \( \S+ , \S+ \) [,)]", key):
+                return "src rejected-by-parser a a ( a a = ( a , a ) ) { }"
         # source stream: a declarator whose array size is a parenthesised comma expression (one class, whatever
         # statement the 1-minimal program wraps around it)
         if key.startswith("src rejected-by-parser ") and re.search(r"(?:\ba|>|,) a \[ \( \w+ , \w+ \) \]", key):
